@@ -33,10 +33,10 @@ type Exp struct {
 	Role string // "level" | "message" | "" (top-level fields only)
 
 	// hints for the CBOR representation (ignored by the JSON matcher)
-	CK   string // "" | bytes | hex | rawcbor | addr | ipnet | time | f32 | f64 | embjson
-	CB   []byte // raw payload for bytes/hex/rawcbor/addr/ipnet
-	CI   int64  // time: unix seconds ; ipnet: prefix length
-	CN   int64  // time: nanoseconds
+	CK string // "" | bytes | hex | rawcbor | addr | ipnet | time | f32 | f64 | embjson
+	CB []byte // raw payload for bytes/hex/rawcbor/addr/ipnet
+	CI int64  // time: unix seconds ; ipnet: prefix length
+	CN int64  // time: nanoseconds
 }
 
 type ExpField struct {
@@ -63,7 +63,7 @@ func ValidText(b []byte) string {
 	return string(o)
 }
 
-func str(b []byte) Exp { return Exp{Kind: "str", S: ValidText(b)} }
+func str(b []byte) Exp  { return Exp{Kind: "str", S: ValidText(b)} }
 func strS(s string) Exp { return Exp{Kind: "str", S: ValidText([]byte(s))} }
 
 var null = Exp{Kind: "null"}
@@ -251,7 +251,7 @@ func (m Model) errVal(v Val, absentWhenNil bool) (Exp, bool) {
 
 func (m Model) stackVal(inFields bool) (Exp, bool) {
 	switch m.Set.StackMarshal {
-	case "", "nil":
+	case "", "nil", "nilerr":
 		return Exp{}, false
 	case "string":
 		return strS("stack-of-error"), true
@@ -644,10 +644,10 @@ func (m Model) ApplyStep(par *LoggerModel, stp Step, ndest *int) *LoggerModel {
 
 // ExpEvent is the expected outcome of one EventSpec.
 type ExpEvent struct {
-	Written   bool
-	Level     int
-	Fields    []ExpField
-	HookCalls []HookCall // expected invocations (Level = level passed)
+	Written    bool
+	Level      int
+	Fields     []ExpField
+	HookCalls  []HookCall // expected invocations (Level = level passed)
 	NoHooksRun bool
 }
 
